@@ -24,8 +24,9 @@ LEAN_MODULES = ["Barril.Props.C06"]
 DRIVERS = ["drv_compound"]
 DRIVER_EXE = "drv_compound"
 RULE = ("one case per row of the default database (all 1548, exhaustive): reading, expected factor, written "
-        "precision and verdict of the rule, model vs independent Python reading vs the real code (Convert and "
-        "Scalar arithmetic); plus seeded symbol strings for the grammar (table symbols recombined with '.', '/', "
+        "precision and verdict of the rule, model vs independent Python reading vs the real code (Convert on "
+        "floats, ndarrays, lists and tuples, asked through the quantity type and through every category of it, "
+        "also via the category's default unit; Scalar arithmetic); plus seeded symbol strings for the grammar (table symbols recombined with '.', '/', "
         "exponents, multipliers, and malformed ones); distinct = distinct symbol/string; non-trivial = the rule "
         "reads the row (compound or SI) / the string decomposes")
 EXHAUSTIVE = {"quick": True, "thorough": True}
@@ -143,6 +144,31 @@ def _real_slope_nd(db, u):
     return float(r[0]) - float(r[1])
 
 
+def _real_slope_cat(db, u):
+    """the same factor asked through every category of the unit's quantity type (a category name is accepted
+    wherever a quantity type is) and through the list branch of the conversion; returns the factor that differs
+    most from the quantity-type route, or None when the type has no category"""
+    info = db.unit_to_unit_info[u]
+    qt = info.quantity_type
+    base = db.quantity_types[qt][0].unit
+    ref = _real_slope(db, u)
+    worst = None
+    for name, ci in db.categories_to_quantity_types.items():
+        if ci.quantity_type != qt:
+            continue
+        r = db.Convert(name, u, base, [1.0, 0.0])
+        cands = [float(r[0]) - float(r[1])]
+        d = ci.default_unit
+        if d and d != base and d != u:
+            # via the category's own default unit: u -> d asked through the category, d -> base through the type
+            r = db.Convert(name, u, d, (1.0, 0.0))
+            cands.append((float(r[0]) - float(r[1])) * _real_slope(db, d))
+        for f in cands:
+            if worst is None or abs(f - ref) > abs(worst - ref):
+                worst = f
+    return worst
+
+
 def _scalar_in_base(db, u, amount):
     """a Scalar holding `amount` of unit u, re-expressed (as an increment) in the base unit of u's type"""
     from barril.units import Scalar
@@ -225,6 +251,12 @@ def impl(c, ctx):
         out["real_slope_nd"] = _real_slope_nd(ctx.db, s).hex()
     except Exception as e:
         out["real_slope_nd_err"] = err_kind(e)
+    try:
+        f = _real_slope_cat(ctx.db, s)
+        if f is not None:
+            out["real_slope_cat"] = f.hex()
+    except Exception as e:
+        out["real_slope_cat_err"] = err_kind(e)
     if j is None:
         out["reading"] = None
         return dict(ok=out)
@@ -281,6 +313,13 @@ def agree(c, io, mo, ctx):
             return "real conversion factor through the ndarray branch %r is not the model's slope %s" % (r, float(qparse(m["slope"])))
     elif "real_slope_nd_err" in i and "real_slope" in i:
         return "the ndarray branch of the conversion raised: " + i["real_slope_nd_err"]
+    if "real_slope_cat" in i:
+        r = float.fromhex(i["real_slope_cat"])
+        if not close(r, qparse(m["slope"]), abs(qparse(m["slope"])) * 8) and \
+                not _affine_slack(ctx, c["_t"]["s"], r, qparse(m["slope"])):
+            return "real conversion factor asked through a category of the type %r is not the model's slope %s" % (r, float(qparse(m["slope"])))
+    elif "real_slope_cat_err" in i and "real_slope" in i:
+        return "the conversion asked through a category of the type raised: " + i["real_slope_cat_err"]
     if i["reading"] is None:
         return None
     for k in ("expected", "tol", "base_expected"):
@@ -338,6 +377,10 @@ def oracle(c, ctx):
         if abs(named_nd - named) > 1e-9 * abs(named) + 1e-300:
             return dict(clause="an ndarray amount in the named unit converts with another factor than a float amount",
                         symbol=s, float_factor=named, ndarray_factor=named_nd)
+        named_cat = _real_slope_cat(db, s)
+        if named_cat is not None and abs(named_cat - named) > 1e-9 * abs(named) + 1e-300:
+            return dict(clause="the named unit converts with another factor when the conversion is asked through a "
+                               "category of its quantity type", symbol=s, factor=named, through_category=named_cat)
         composed = _real_composed(db, kind, parts)
         tol = float(rows[s]["prec"] + c06rule._expected(kind, parts, rows)[1])
         b = ctx.base_of[rows[s]["qtype"]]
